@@ -38,10 +38,15 @@ type qInv struct {
 }
 
 type qVec struct {
-	Items []qItem    `json:"items"`
-	Progs []qProg    `json:"progs"`
-	Inv   []qInv     `json:"inv"`
-	Out   [][]string `json:"out"`
+	Sess  sessRec `json:"sess"`
+	Local string  `json:"local"` // the specification's address rule for the session: A | H | B
+	Was   string  `json:"was"`   // an address that is not the session's: A | H | X
+	Items []qItem `json:"items"`
+	// Styles, when set (replay of a recorded case), are the rendering styles to run
+	Styles []int      `json:"styles,omitempty"`
+	Progs  []qProg    `json:"progs"`
+	Inv    []qInv     `json:"inv"`
+	Out    [][]string `json:"out"`
 }
 
 const nsStreams = "urn:ietf:params:xml:ns:xmpp-streams"
@@ -70,7 +75,10 @@ func stanzaLocal(st int) string {
 	return [...]string{"message", "message", "presence", "iq"}[st%4]
 }
 
-func render8(items []qItem, st int) string {
+// render8 writes the items as the peer sends them; a local Close() ("lclose") splits the
+// input into chunks.
+func render8(items []qItem, st int, a *addrs) []string {
+	chunks := []string{}
 	var b strings.Builder
 	for _, it := range items {
 		switch it.K {
@@ -79,25 +87,30 @@ func render8(items []qItem, st int) string {
 			from := ""
 			switch it.From {
 			case "own":
-				from = fmt.Sprintf(` from="%s"`, ownBare)
+				from = fmt.Sprintf(` from="%s"`, a.Own)
 			case "ownfull":
-				from = fmt.Sprintf(` from="%s"`, ownFull)
+				from = fmt.Sprintf(` from="%s"`, a.OwnFull)
+			case "was":
+				from = fmt.Sprintf(` from="%s"`, a.Was)
 			case "peer":
-				from = fmt.Sprintf(` from="%s"`, peerAddr)
+				from = fmt.Sprintf(` from="%s"`, a.Peer)
+			case "none":
+			default:
+				panic("unknown from " + it.From)
 			}
 			if it.Kind == "foreign" {
 				local = "x"
-				fmt.Fprintf(&b, `<x xmlns="%s"%s to="%s">`, nsOther, from, ownFull)
+				fmt.Fprintf(&b, `<x xmlns="%s"%s to="%s">`, nsOther, from, a.OwnFull)
 			} else {
 				switch st % 4 {
 				case 0: // from right after the type
-					fmt.Fprintf(&b, `<message type="chat"%s to="%s">`, from, ownFull)
+					fmt.Fprintf(&b, `<message type="chat"%s to="%s">`, from, a.OwnFull)
 				case 1: // from last, after id and type
-					fmt.Fprintf(&b, `<message id="m1" type="chat" to="%s"%s>`, ownFull, from)
+					fmt.Fprintf(&b, `<message id="m1" type="chat" to="%s"%s>`, a.OwnFull, from)
 				case 2:
 					fmt.Fprintf(&b, `<presence type="unavailable" id="p1" xml:lang="en"%s>`, from)
 				case 3: // a response nobody waits for
-					fmt.Fprintf(&b, `<iq to="%s" id="zq" type="result"%s>`, ownFull, from)
+					fmt.Fprintf(&b, `<iq to="%s" id="zq" type="result"%s>`, a.OwnFull, from)
 				}
 			}
 			for _, t := range it.Body {
@@ -119,25 +132,28 @@ func render8(items []qItem, st int) string {
 			b.WriteString("</" + local + ">")
 		case "ws":
 			b.WriteString("\n  ")
+		case "lclose":
+			chunks = append(chunks, b.String())
+			b.Reset()
 		case "text":
 			b.WriteString("junk")
 		case "comment", "pi", "directive", "otherstream":
 			b.WriteString(renderStop(it.K))
 		case "restart":
-			b.WriteString(`<stream:stream to="example.net" version="1.0" xmlns="jabber:client" xmlns:stream="` + streamNS + `">`)
+			b.WriteString(`<stream:stream to="example.net" version="1.0" xmlns="` + a.NS + `" xmlns:stream="` + streamNS + `">`)
 		case "serr":
 			b.WriteString(`<stream:error><` + it.Cond + ` xmlns="` + nsStreams + `"/></stream:error>`)
 		case "close":
 			b.WriteString("</stream:stream>")
 		case "eof":
-			return b.String() // the transport ends here
+			return append(chunks, b.String()) // the transport ends here
 		case "badtop":
 			b.WriteString("</zz>")
 		default:
 			panic("unknown item " + it.K)
 		}
 	}
-	return b.String()
+	return append(chunks, b.String())
 }
 
 type obsInv struct {
@@ -190,7 +206,7 @@ func isSubseq(a, b [][]string) bool {
 // checkInv compares one observed invocation with the specification's expectation.
 var wantStanza = "message"
 
-func checkInv(exp qInv, obs obsInv) string {
+func checkInv(exp qInv, obs obsInv, a *addrs) string {
 	wantKind := map[string]string{"stanza": wantStanza, "foreign": "x"}[exp.Kind]
 	if obs.Kind != wantKind {
 		return fmt.Sprintf("handler invoked for <%s>, expected <%s>", obs.Kind, wantKind)
@@ -203,16 +219,15 @@ func checkInv(exp qInv, obs obsInv) string {
 		}
 	case "empty":
 		if obs.From != "" && obs.From != "none" {
-			return "from equal to the session's own bare address presented as " + obs.From + ", expected empty"
+			return "from equal to the session's own bare address (LocalAddr().Bare() = " + a.Own + ") presented as " + obs.From + ", expected empty"
 		}
-	case "peer":
-		if obs.From != peerAddr {
-			return "from presented as " + obs.From
+	case "peer", "ownfull", "was":
+		want := map[string]string{"peer": a.Peer, "ownfull": a.OwnFull, "was": a.Was}[exp.From]
+		if obs.From != want {
+			return "from " + want + " (not the session's own bare address " + a.Own + ") presented as " + obs.From
 		}
-	case "ownfull":
-		if obs.From != ownFull {
-			return "from presented as " + obs.From
-		}
+	default:
+		return "driver: unknown expected from " + exp.From
 	}
 	if len(obs.Ev) != len(exp.Ev)+exp.Free {
 		return fmt.Sprintf("handler observed %d events, expected %d", len(obs.Ev), len(exp.Ev)+exp.Free)
@@ -263,7 +278,8 @@ func readMain(args []string) {
 	}
 	out := newOut(args[0])
 	defer out.close()
-	var evals, mism, stalls, nontrivial, invocations int
+	var evals, mism, stalls, setups, nontrivial, invocations, nvec int
+	kinds := map[string]int{}
 	classes := map[string]int{}
 	samples := []interface{}{}
 	for _, path := range args[1:] {
@@ -272,15 +288,17 @@ func readMain(args []string) {
 			if err := json.Unmarshal(line, &v); err != nil {
 				die("vector: %v: %s", err, line)
 			}
-			for ri, nsSym := range []string{"client", "server", "client", "server"} {
-				style := ri
-				if ri >= 2 {
-					style = 2 + (evals/2)%2 // alternate presence / iq-result between vectors
-				}
+			nvec++
+			kinds[v.Sess.String()]++
+			// two of the four rendering styles per vector (stanza kind, attribute order), alternating
+			styles := []int{(nvec + nvec/4) % 4, (nvec + 2 + nvec/4) % 4}
+			if len(v.Styles) > 0 {
+				styles = v.Styles
+			}
+			for ri, style := range styles {
 				wantStanza = stanzaLocal(style)
-				input := render8(v.Items, style)
 				evals++
-				ns := stanzaNSOf(nsSym)
+				render := func(a *addrs) []string { return render8(v.Items, style, a) }
 				log := []obsInv{}
 				h := xmpp.HandlerFunc(func(t xmlstream.TokenReadEncoder, start *xml.StartElement) error {
 					p := v.Progs[len(log)%len(v.Progs)]
@@ -313,10 +331,16 @@ func readMain(args []string) {
 					log = append(log, o)
 					return nil
 				})
-				res := serveInput(ns, input, h)
+				res := serveSession(v.Sess, v.Local, v.Was, render, h)
+				input := res.Input
+				if res.Setup != "" {
+					setups++
+					out.put(map[string]interface{}{"kind": "setup", "vector": v, "r": ri, "why": res.Setup})
+					continue
+				}
 				if res.Stalled {
 					stalls++
-					out.put(map[string]interface{}{"kind": "stall", "vector": v, "input": input, "ns": nsSym})
+					out.put(map[string]interface{}{"kind": "stall", "vector": v, "input": input, "r": ri})
 					continue
 				}
 				why := ""
@@ -328,7 +352,7 @@ func readMain(args []string) {
 				}
 				if why == "" {
 					for i := range v.Inv {
-						if w := checkInv(v.Inv[i], log[i]); w != "" {
+						if w := checkInv(v.Inv[i], log[i], res.Addrs); w != "" {
 							why = fmt.Sprintf("invocation %d: %s", i+1, w)
 							break
 						}
@@ -357,10 +381,12 @@ func readMain(args []string) {
 				if len(log) > 0 {
 					nontrivial++
 				}
-				classes[fmt.Sprintf("%d/%v", len(log), oc)]++
+				classes[fmt.Sprintf("%s/%d/%v", v.Sess.Kind, len(log), oc)]++
 				if why != "" {
 					mism++
-					out.put(map[string]interface{}{"kind": "read", "ns": nsSym, "vector": v, "input": input, "why": why,
+					v := v
+					v.Styles = []int{style}
+					out.put(map[string]interface{}{"kind": "read", "r": ri, "sess": v.Sess.String(), "own": res.Addrs.Own, "vector": v, "input": input, "why": why,
 						"observed": log, "outcome": oc, "serve_error": errString(res.Err), "wire": res.Wire})
 				} else if len(samples) < 3 && len(log) >= 2 && evals%211 == 0 {
 					samples = append(samples, map[string]interface{}{"input": input, "progs": v.Progs, "observed": log, "outcome": oc})
@@ -368,6 +394,6 @@ func readMain(args []string) {
 			}
 		})
 	}
-	summary(map[string]interface{}{"evaluations": evals, "mismatches": mism, "stalls": stalls, "nontrivial": nontrivial,
-		"handler_invocations": invocations, "distinct_classes": len(classes), "samples": samples})
+	summary(map[string]interface{}{"evaluations": evals, "mismatches": mism, "stalls": stalls, "setup_failures": setups, "sessions": len(kinds), "nontrivial": nontrivial,
+		"handler_invocations": invocations, "distinct_classes": len(classes), "classes": classNames(classes), "samples": samples})
 }
